@@ -128,4 +128,18 @@ CLAIMS['C01'] = {
     'note': _NOTE,
 }
 
+CLAIMS['C08'] = {
+    'text': 'Conditions: must-yield for all 14 condition classes; EXIT-PRED (normal exit only '
+            'through a test of `self` true after the last suspension) for Condition.__await__ '
+            'per receiver and Connective.__await_children__, with the time conditions decided '
+            'by their exhaustive action tables; no-lost-wake-up (every store to a truth-source '
+            'field followed by the right trigger in the same atomic block; writers discovered '
+            'by query); connective subscription/unsubscription on all paths; trigger '
+            'coverage per class (genuine defect recorded as known finding: All/Any never '
+            'trigger their own waiters); boolean algebra of ~/&/| as normal-form complements, '
+            'De Morgan, the comparison-operator involution, and purity of every __bool__. '
+            'Truth of user-defined comparison operators on tracked values is not decided.',
+    'note': _NOTE,
+}
+
 NOT_APPLICABLE = {}
